@@ -1100,6 +1100,16 @@ func (c *SpecCtx) call(n *ECall) TV {
 		}
 		c.e.declareFun(unbox, []string{SInt}, sorts[0])
 		return TV{Sc{app(sorts[0], smtSym(unbox), a.V.(Sc).T)}, t}
+	case "zero": // zero("T"): the zero value of type T
+		st, ok := n.Args[0].(*EStr)
+		if !ok {
+			c.fail("zero needs a string literal type")
+		}
+		t := c.resolveType(st.V)
+		if t == nil {
+			c.fail("zero: unknown type %s", st.V)
+		}
+		return TV{zeroValue(t), t}
 	case "methodvalue": // methodvalue(x, recv, "name"): x is the method value recv.name made in this function
 		a := c.eval(n.Args[0])
 		r := c.eval(n.Args[1])
